@@ -2738,9 +2738,24 @@ class _Quantifiers(ast.NodeTransformer):
     def _elements(self, it):
         if isinstance(it, ast.Name):
             it = self.tuples[-1].get(it.id)
+        if isinstance(it, ast.Call) and isinstance(it.func, ast.Name) and \
+                it.func.id == 'map' and len(it.args) == 2 and \
+                not it.keywords and \
+                isinstance(it.args[0], (ast.Name, ast.Attribute,
+                                        ast.Lambda)) and \
+                isinstance(it.args[1], (ast.Tuple, ast.List)) and \
+                1 <= len(it.args[1].elts) <= 6 and all(
+                    isinstance(e, ast.Constant) for e in it.args[1].elts):
+            # map(f, ('a', 'b')) iterated once: (f('a'), f('b'))
+            it = ast.Tuple(elts=[self.visit(ast.copy_location(ast.Call(
+                func=copy.deepcopy(it.args[0]), args=[e], keywords=[]), it))
+                for e in it.args[1].elts], ctx=ast.Load())
         if isinstance(it, (ast.Tuple, ast.List)) and \
-                1 <= len(it.elts) <= 6 and all(_stable_path(e)
-                                               for e in it.elts):
+                1 <= len(it.elts) <= 6 and all(
+                    _stable_path(e) or (isinstance(e, ast.Lambda) and not any(
+                        isinstance(x, (ast.Call, ast.Yield, ast.NamedExpr))
+                        for x in ast.walk(e.body)))
+                    for e in it.elts):
             return list(it.elts)
         if isinstance(it, ast.Call) and isinstance(it.func, ast.Name) and \
                 it.func.id == 'zip' and it.args and not it.keywords:
@@ -2829,7 +2844,23 @@ class _Quantifiers(ast.NodeTransformer):
         if len(terms) == 1:
             out = ast.Call(func=ast.Name(id='bool', ctx=ast.Load()),
                            args=[out], keywords=[])
-        return ast.copy_location(out, node)
+        return ast.copy_location(_Beta().visit(out), node)
+
+
+class _Beta(ast.NodeTransformer):
+    """(lambda x: BODY)(arg) is BODY with arg for x, for a plain argument."""
+    def visit_Call(self, node):
+        self.generic_visit(node)
+        f = node.func
+        if isinstance(f, ast.Lambda) and len(node.args) == 1 and \
+                not node.keywords and len(f.args.args) == 1 and \
+                not (f.args.vararg or f.args.kwarg or f.args.kwonlyargs or
+                     f.args.defaults or f.args.posonlyargs) and \
+                _dup_safe_arg(node.args[0]):
+            return ast.copy_location(_Subst(
+                {f.args.args[0].arg: node.args[0]}, {}).visit(
+                    copy.deepcopy(f.body)), node)
+        return node
 
 
 def _bind_target(target, value, env):
@@ -3551,7 +3582,9 @@ def _getter(e):
         if fn == 'itemgetter':
             return ('item', e.args[0].value)
         if fn == 'attrgetter' and isinstance(e.args[0].value, str) and \
-                e.args[0].value.isidentifier():
+                e.args[0].value and all(
+                    part.isidentifier()
+                    for part in e.args[0].value.split('.')):
             return ('attr', e.args[0].value)
     return None
 
@@ -3560,7 +3593,9 @@ def _apply_getter(kind, key, arg):
     if kind == 'item':
         return ast.Subscript(value=arg, slice=ast.Constant(value=key),
                              ctx=ast.Load())
-    return ast.Attribute(value=arg, attr=key, ctx=ast.Load())
+    for part in key.split('.'):         # attrgetter('a.b'): x.a.b
+        arg = ast.Attribute(value=arg, attr=part, ctx=ast.Load())
+    return arg
 
 
 def class_constants(tree):
@@ -3711,6 +3746,70 @@ def inline_new_class_constants(trees, known):
                 if isinstance(st, (ast.FunctionDef, ast.AsyncFunctionDef)):
                     T().visit(st)
         ast.fix_missing_locations(tree)
+        for c_, a in sorted(used):
+            done.append(('const:%s.%s.%s' % (mod, c_, a), 1, False))
+    return done
+
+
+def explicit_class_constants(trees, known):
+    """`Class.NAME`, with the class written by name (what a parameter bound
+    to a class leaves behind once a helper is written out): the literal the
+    class itself binds NAME to, when the census does not know it and nothing
+    assigns the attribute."""
+    stored = set()
+    for tree in trees.values():
+        for k in ast.walk(tree):
+            if isinstance(k, ast.Attribute) and \
+                    isinstance(k.ctx, (ast.Store, ast.Del)):
+                stored.add(k.attr)
+            if isinstance(k, ast.Call) and isinstance(k.func, ast.Name) and \
+                    k.func.id in ('setattr', 'delattr') and \
+                    len(k.args) >= 2 and isinstance(k.args[1], ast.Constant):
+                stored.add(k.args[1].value)
+    done = []
+    for path, tree in trees.items():
+        mod = modname_of(path)
+        consts = {key: v for key, v in class_constants(tree).items()
+                  if 'const:%s.%s.%s' % (mod, key[0], key[1]) not in known
+                  and not key[1].startswith('__') and key[1] not in stored}
+        if not consts:
+            continue
+        top = {st.name for st in tree.body if isinstance(st, ast.ClassDef)}
+        used = set()
+
+        class T(ast.NodeTransformer):
+            def __init__(self):
+                self.shadow = [set()]
+
+            def _scope(self, node):
+                bound = {a.arg for a in ast.walk(node.args)
+                         if isinstance(a, ast.arg)}
+                for x in ast.walk(node):
+                    if isinstance(x, ast.Name) and isinstance(
+                            x.ctx, (ast.Store, ast.Del)):
+                        bound.add(x.id)
+                self.shadow.append(self.shadow[-1] | bound)
+                self.generic_visit(node)
+                self.shadow.pop()
+                return node
+            visit_FunctionDef = _scope
+            visit_AsyncFunctionDef = _scope
+            visit_Lambda = _scope
+
+            def visit_Attribute(self, node):
+                self.generic_visit(node)
+                if isinstance(node.ctx, ast.Load) and \
+                        isinstance(node.value, ast.Name) and \
+                        node.value.id in top and \
+                        node.value.id not in self.shadow[-1] and \
+                        (node.value.id, node.attr) in consts:
+                    used.add((node.value.id, node.attr))
+                    return ast.copy_location(copy.deepcopy(
+                        consts[(node.value.id, node.attr)]), node)
+                return node
+        T().visit(tree)
+        if used:
+            ast.fix_missing_locations(tree)
         for c_, a in sorted(used):
             done.append(('const:%s.%s.%s' % (mod, c_, a), 1, False))
     return done
@@ -4351,6 +4450,7 @@ def normalise(trees, known=None):
     n += _split_selector_calls(trees, known)
     _properties_as_methods(trees, known)
     ilog = Inliner(trees, known).run()
+    ilog += explicit_class_constants(trees, known)
     log = clog + ilog
     n += thread_decisions(trees)
     if ilog or clog:
